@@ -33,7 +33,10 @@ RULE = (
     "set iteration order) with all n! orders for n<=3 and the reduced move set {identity, reversal, adjacent transpositions, "
     "rotations} for n>=4, deviation bound 1 (quick) / 2 (thorough), unbounded for configurations with <=3 files; argument "
     "spellings (absolute/relative/symlink/str, lookup list orders, duplicates, root in lookups, alias); directory sets "
-    "(nested / same-name / case-differing) x allow_root_namespace_name_collision. Non-trivial iff the schedule has a choice "
+    "(nested / same-name / case-differing) x allow_root_namespace_name_collision; 4 configurations under 20 parent directories whose names are special to "
+    "globbing / shells / hidden-file conventions (absolute and relative); call histories: every ordered pair (thorough: triple) of 10 operations over two same-named "
+    "trees in ONE process, sharing the lookup list object, relative spellings under changing working directories and a re-pointed symlink, each compared with "
+    "its outcome as the only call of a fresh interpreter. Non-trivial iff the schedule has a choice "
     "point of arity >= 2; distinct by canonical hash of (configuration, operation, choices). states = distinct (configuration, "
     "operation, choice-point signature, outcome), transitions = choices taken, traces_validated_against_impl = executions"
 )
@@ -146,6 +149,10 @@ def plan(tier):
         shards.append({"kind": "spellings", "config": name})
     shards.append({"kind": "dirsets"})
     shards.append({"kind": "hashseed"})
+    for i in range(len(ODD_PARENTS)):
+        shards.append({"kind": "odd-parents", "index": i})
+    for i in range(len(HISTORY_OPS)):
+        shards.append({"kind": "histories", "first": i})
     return shards
 
 
@@ -162,6 +169,16 @@ def cases(shard, tier):
         yield {"kind": "spellings", "config": shard["config"]}
     elif k == "dirsets":
         yield {"kind": "dirsets"}
+    elif k == "odd-parents":
+        for cname in ("nested", "two-roots", "legacy", "same-name-roots"):
+            yield {"kind": "odd-parents", "config": cname, "parent": ODD_PARENTS[shard["index"]]}
+    elif k == "histories":
+        for j in range(len(HISTORY_OPS)):
+            for share in ("list", "fresh"):
+                yield {"kind": "histories", "ops": [shard["first"], j], "share": share}
+        if tier != "quick":
+            for j, l in itertools.product(range(len(HISTORY_OPS)), repeat=2):
+                yield {"kind": "histories", "ops": [shard["first"], j, l], "share": "list"}
     else:
         yield {"kind": "hashseed"}
 
@@ -401,6 +418,165 @@ def check_dirsets(case, R):
         ws.remove(base)
 
 
+# ---------------------------------------------------------------------------------------------------------------
+# Directory names ABOVE the root that are special to globbing, shells, URL quoting or hidden-file conventions: the namespace
+# directory itself must have a valid name, but it may live anywhere.
+ODD_PARENTS = ["build[1]", "a*b", "q?x", ".hidden", "sp ace", "ünï", "{x,y}", "~t", "$HOME", "%41", "[", "a]b[", "!x", "x;y", "x'y", "-x", "**", "x.dsdl", "CON", "a\\b"]
+
+
+def check_odd_parents(case, R):
+    cfg = configs()[case["config"]]
+    base = ws.fresh()
+    old = os.getcwd()
+    try:
+        try:
+            sub = base / case["parent"] / "in"
+            sub.mkdir(parents=True)
+        except OSError:
+            R.counters["unwritable_names"] += 1
+            return
+        files = N.files_of(cfg)
+        ws.write_tree(sub, files)
+        exp = expected_rn(cfg)
+        defs = [d for d in cfg["defs"] if d.get("text") is None]
+        exp_rf = expected_rf(cfg, defs)
+        for spelling in ("abs", "rel"):
+            os.chdir(sub if spelling == "rel" else old)
+            mk = (lambda x: Path(x)) if spelling == "rel" else (lambda x: sub / x)
+            one = {**case, "spelling": spelling}
+            R.case(one, nontrivial=True, sample=(case["parent"] == "build[1]" and spelling == "abs"))
+            R.state(one)
+            R.transitions += 2
+            R.traces += 2
+            o = run_rn(sub, cfg, root=mk(cfg["root"]), lookups=[mk(x) for x in cfg["lookups"]])
+            if "ok" not in o or names_of(o["ok"]) != exp["ok"] or [x[1] for x in o["ok"]] != [N.file_of(d) for d in sorted([d for d in cfg["defs"] if d["dir"] == cfg["root"]], key=N.key)]:
+                R.outcome("odd-parent-wrong")
+                R.violation("read_namespace-under-odd-parent", "exactly one composite per definition file under the root, wherever the root directory lives", one, observed=o if "ok" not in o else names_of(o["ok"]), expected=exp)
+                continue
+            try:
+                d_, t_ = pydsdl.read_files([mk(N.file_of(x)) for x in defs], [mk(x) for x in sorted({t["dir"] for t in defs})], [])
+                orf = [names_of(obs_types(d_, sub)), names_of(obs_types(t_, sub))]
+            except Exception as ex:  # noqa
+                orf = {"raised": type(ex).__name__, "text": str(ex)[:200]}
+            if orf != exp_rf["ok"]:
+                R.outcome("odd-parent-wrong")
+                R.violation("read_files-under-odd-parent", "direct = requested files, transitive = rest of the closure, wherever the root directory lives", one, observed=orf, expected=exp_rf)
+                continue
+            R.outcome("ok-odd-parent")
+    finally:
+        os.chdir(old)
+        ws.remove(base)
+
+
+# Call histories: several API calls in ONE process that share argument objects (the same list of lookup directories), the same
+# relative spellings under different working directories, and a symbolic link that is re-pointed between calls.  Every call must
+# give what it gives when it is the only call of a fresh process (its "isolated" outcome, computed first on fresh objects).
+HISTORY_TREE = {
+    "p/ra/A.1.0.dsdl": "uint8 a\n@sealed\n", "p/ra/X.1.0.dsdl": "uint16 x\n@sealed\n", "p/rb/B.1.0.dsdl": "ra.A.1.0 a\n@sealed\n",
+    "q/ra/A.1.0.dsdl": "uint32 a\n@sealed\n", "q/ra/Y.1.0.dsdl": "ra.X.1.0 x\n@sealed\n", "q/rb/B.1.0.dsdl": "ra.A.1.0 a\nuint8 q\n@sealed\n", "q/rc/C.1.0.dsdl": "rb.B.1.0 b\n@sealed\n",
+}
+HISTORY_OPS = [
+    ("rn", "p", "ra", ["rb"]), ("rn", "q", "ra", ["rb"]), ("rn", "p", "rb", ["ra"]), ("rn", "q", "rb", ["ra"]), ("rn", "q", "rc", ["rb", "ra"]),
+    ("rf", "p", "rb/B.1.0.dsdl", ["rb", "ra"]), ("rf", "q", "rb/B.1.0.dsdl", ["rb", "ra"]), ("rf", "q", "rc/C.1.0.dsdl", ["rc", "rb", "ra"]),
+    ("rn-link", "p", "ra", ["rb"]), ("rn-link", "q", "ra", ["rb"]),
+]
+
+
+def _history_call(base, op, shared: dict | None):
+    kind, side, what, dirs = op
+    os.chdir(base / side)
+    if kind == "rn-link":
+        link = base / "current"
+        if link.is_symlink():
+            link.unlink()
+        os.symlink(base / side, link)
+        os.chdir(base)
+        root, lookups = Path("current") / what, [Path("current") / d for d in dirs]
+    elif kind == "rn":
+        root, lookups = Path(what), [Path(d) for d in dirs]
+    else:
+        root, lookups = None, [Path(d) for d in dirs]
+    if shared is not None:
+        # the SAME list object is handed to every call of the history that designates the same directories (as the caller wrote
+        # them down); it is never re-initialised in between, exactly like an application that keeps one list of lookup directories
+        lookups = shared.setdefault(tuple(str(x) for x in lookups), lookups)
+    try:
+        if kind == "rf":
+            d_, t_ = pydsdl.read_files([Path(what)], lookups, [])
+            res = list(d_) + list(t_)
+        else:
+            res = pydsdl.read_namespace(root, lookups)
+        return {"ok": [[str(t), api.rel(base, t.source_file_path), engine.h64(dump.composite(t))] for t in res]}
+    except pydsdl.InvalidDefinitionError as ex:
+        return {"ide": type(ex).__name__}
+    except Exception as ex:  # noqa
+        return {"other": type(ex).__name__, "text": str(ex)[:200]}
+
+
+def history_isolated_probe() -> str:
+    """Fresh interpreter: the outcome of every operation when it is the first and only call (paths relative to the scratch base)."""
+    engine.bind_repo()
+    ws.init_worker()
+    out = []
+    old = os.getcwd()
+    for op in HISTORY_OPS:
+        base = ws.fresh()
+        try:
+            ws.write_tree(base, HISTORY_TREE)
+            out.append(_history_call(base, op, None))
+        finally:
+            os.chdir(old)
+            ws.remove(base)
+    ws.cleanup_all()
+    return json.dumps(out, sort_keys=True)
+
+
+_ISOLATED: list = []
+
+
+def isolated_outcomes():
+    if not _ISOLATED:
+        outs = []
+        for op in HISTORY_OPS:  # one fresh interpreter per operation: nothing can have been cached by an earlier call
+            env = dict(os.environ, PYTHONPATH=str(engine.VERIF))
+            code = "from mc import engine; engine.bind_repo(); from mc.checks import c10; c10.HISTORY_OPS[:] = [c10.HISTORY_OPS[%d]]; print(c10.history_isolated_probe())" % HISTORY_OPS.index(op)
+            p = subprocess.run([sys.executable, "-c", code], env=env, capture_output=True, text=True, cwd=str(engine.VERIF), timeout=300)
+            if p.returncode != 0:
+                raise RuntimeError("isolated probe failed: " + p.stderr[-500:])
+            outs.append(json.loads(p.stdout.strip().splitlines()[-1])[0])
+        _ISOLATED.extend(outs)
+    return _ISOLATED
+
+
+def check_histories(case, R):
+    iso = isolated_outcomes()
+    base = ws.fresh()
+    old = os.getcwd()
+    try:
+        ws.write_tree(base, HISTORY_TREE)
+        shared = {} if case["share"] == "list" else None
+        done = []
+        for i in case["ops"]:
+            o = _history_call(base, HISTORY_OPS[i], shared)
+            done.append(i)
+            R.state([done, case["share"]])
+            R.transitions += 1
+            if "other" in o:
+                R.violation("foreign-exception:" + o["other"], "reading yields a result or InvalidDefinitionError", case, observed=o)
+                break
+            if o != iso[i]:
+                R.outcome("history-dependent")
+                R.violation("result-depends-on-earlier-calls:%s" % HISTORY_OPS[i][0], "a call gives what it gives as the only call of a fresh process: no dependence on earlier calls, on argument objects reused between calls, on the working directory or link targets of earlier calls", {**case, "ops": done}, observed=o if "ok" not in o else [x[:2] for x in o["ok"]], expected=iso[i] if "ok" not in iso[i] else [x[:2] for x in iso[i]["ok"]])
+                break
+        else:
+            R.outcome("ok-history")
+        R.traces += 1
+        R.case(case, nontrivial=len(set(case["ops"])) > 1, sample=(case["ops"] == [0, 1] and case["share"] == "list"))
+    finally:
+        os.chdir(old)
+        ws.remove(base)
+
+
 def hashseed_probe() -> str:
     """Executed in a fresh interpreter under a given PYTHONHASHSEED (no scheduler): digest of all canonical outcomes."""
     engine.bind_repo()
@@ -465,12 +641,16 @@ def check_case(case, R):
         check_spellings(case, R)
     elif k == "dirsets":
         check_dirsets(case, R)
+    elif k == "odd-parents":
+        check_odd_parents(case, R)
+    elif k == "histories":
+        check_histories(case, R)
     else:
         check_hashseed(case, R)
 
 
 def finish(tier, M):
-    need = ["ok-rn", "ok-rf", "ok-spelling", "dirset-rejected", "dirset-accepted", "hashseed-pass"]
+    need = ["ok-rn", "ok-rf", "ok-spelling", "dirset-rejected", "dirset-accepted", "hashseed-pass", "ok-odd-parent", "ok-history"]
     miss = [n for n in need if not M.hist.get(n)]
     if miss or M.counters.get("max_choice_points", 0) < 2:
         raise engine.Vacuous("not seen: %s (max choice points %s)" % (miss, M.counters.get("max_choice_points")))
